@@ -23,7 +23,7 @@ func vHdrReq(method, path string, hdr map[string]string) *http.Request {
 
 func vAnyCors(rec *vRec) bool {
 	for _, k := range vCorsHeaders {
-		if len(rec.hdr[k]) > 0 {
+		if len(rec.out()[k]) > 0 {
 			return true
 		}
 	}
@@ -31,7 +31,7 @@ func vAnyCors(rec *vRec) bool {
 }
 
 func vHdr1(rec *vRec, k string) string {
-	if v := rec.hdr[k]; len(v) > 0 {
+	if v := rec.out()[k]; len(v) > 0 {
 		return v[0]
 	}
 	return ""
@@ -137,12 +137,12 @@ func H_C08(cfg int) {
 		verifCover("granted")
 		verifAssert(len(origin) > 0, "C08: CORS headers on a response to a request without Origin")
 		verifAssert(allowed, "C08: CORS headers granted to an origin the configuration does not allow")
-		ao := rec.hdr[HEADER_AccessControlAllowOrigin]
+		ao := rec.out()[HEADER_AccessControlAllowOrigin]
 		if len(ao) > 0 {
 			verifAssert(len(ao) == 1, "C08: Access-Control-Allow-Origin appears more than once")
 			verifAssert(ao[0] == origin, "C08: Access-Control-Allow-Origin is not the request's Origin verbatim")
 		}
-		if len(rec.hdr[HEADER_AccessControlAllowCredentials]) > 0 {
+		if len(rec.out()[HEADER_AccessControlAllowCredentials]) > 0 {
 			verifAssert(k.cookies, "C08: credentials granted although not configured")
 		}
 	} else {
@@ -236,7 +236,7 @@ func H_C09(cfg int) {
 		if granted {
 			verifCover("preflight-granted")
 			verifAssert(vAnd(mOK, hOK), "C09: preflight granted although the requested method or a requested header is not allowed")
-			verifAssert(len(rec.hdr[HEADER_AccessControlAllowMethods]) == 1 && len(rec.hdr[HEADER_AccessControlAllowHeaders]) <= 1 && len(rec.hdr[HEADER_AccessControlAllowOrigin]) == 1,
+			verifAssert(len(rec.out()[HEADER_AccessControlAllowMethods]) == 1 && len(rec.out()[HEADER_AccessControlAllowHeaders]) <= 1 && len(rec.out()[HEADER_AccessControlAllowOrigin]) == 1,
 				"C09: a granted preflight lacks Allow-Methods/Allow-Origin or repeats a header")
 			verifAssert(vHdr1(rec, HEADER_AccessControlAllowMethods) == strings.Join(allowedM, ","), "C09: Access-Control-Allow-Methods is not the allowed method list")
 		} else {
@@ -254,10 +254,10 @@ func H_C09(cfg int) {
 			}
 		}
 		verifAssert(later == 1, "C09: an actual request from an allowed origin did not proceed down the chain exactly once")
-		verifAssert(len(rec.hdr[HEADER_AccessControlAllowOrigin]) == 1 && vHdr1(rec, HEADER_AccessControlAllowOrigin) == "http://o", "C09: actual request lacks a single Access-Control-Allow-Origin")
-		verifAssert(len(rec.hdr[HEADER_AccessControlMaxAge]) == 1, "C09: Access-Control-Max-Age not added exactly once")
-		verifAssert(len(rec.hdr[HEADER_AccessControlAllowCredentials]) == vIte(k.cookies, 1, 0), "C09: Access-Control-Allow-Credentials not added exactly when configured")
-		verifAssert(len(rec.hdr[HEADER_AccessControlAllowMethods]) == 0, "C09: an actual request received preflight headers")
+		verifAssert(len(rec.out()[HEADER_AccessControlAllowOrigin]) == 1 && vHdr1(rec, HEADER_AccessControlAllowOrigin) == "http://o", "C09: actual request lacks a single Access-Control-Allow-Origin")
+		verifAssert(len(rec.out()[HEADER_AccessControlMaxAge]) == 1, "C09: Access-Control-Max-Age not added exactly once")
+		verifAssert(len(rec.out()[HEADER_AccessControlAllowCredentials]) == vIte(k.cookies, 1, 0), "C09: Access-Control-Allow-Credentials not added exactly when configured")
+		verifAssert(len(rec.out()[HEADER_AccessControlAllowMethods]) == 0, "C09: an actual request received preflight headers")
 	}
 }
 
@@ -284,12 +284,12 @@ func H_C08_two(cfg int) {
 	verifCoverIf("inner-refuses", vAnd(len(origin) > 0, !innerAllows))
 	verifCoverIf("inner-allows", vAnd(len(origin) > 0, innerAllows))
 	verifObserveInt("status", rec.code())
-	if len(rec.hdr[HEADER_AccessControlAllowCredentials]) > 0 {
+	if len(rec.out()[HEADER_AccessControlAllowCredentials]) > 0 {
 		verifAssert(innerAllows, "C08: credentials granted by a filter whose configuration does not allow the origin")
 	}
-	n := len(rec.hdr[HEADER_AccessControlAllowOrigin])
+	n := len(rec.out()[HEADER_AccessControlAllowOrigin])
 	verifAssert(vImp(!innerAllows, n <= 1), "C08: a second Access-Control-Allow-Origin was added by a filter whose configuration does not allow the origin")
-	for _, v := range rec.hdr[HEADER_AccessControlAllowOrigin] {
+	for _, v := range rec.out()[HEADER_AccessControlAllowOrigin] {
 		verifAssert(v == origin, "C08: Access-Control-Allow-Origin is not the request's Origin verbatim")
 	}
 }
